@@ -287,7 +287,18 @@ def check_sub(facts, rep):
     sel = {}
     bare = []
     n = 0
-    for p in SymEx(b, max_paths=4000).run():
+    hp = SymEx(b, havoc_loops=True, max_paths=4000).run()
+    entry = {}
+    pushes = {}
+    for p in hp:
+        for (fid, bb_, l), v in p.state.loop_entry.items():
+            if fid == 0 and strip(v)[0] != 'loopvar':
+                entry.setdefault(l, set()).add(dk(v))
+        for e in p.calls():
+            if e.name.split('::')[-1] == 'push' and len(e.args) == 2 and e.args[0][0] == 'mref' and e.args[0][1][0][0] == 'local':
+                v = re.sub(r'_\d+', 'IT', dk(e.args[1])).replace('next(IT).Some.0', 'IT')
+                pushes.setdefault(e.args[0][1][0][1], set()).add(v)
+    for p in hp:
         if p.end != 'return':
             continue
         n += 1
@@ -307,6 +318,11 @@ def check_sub(facts, rep):
                         rr = {dk(q.ret).replace("('item',)", 'IT') for q in apply_closure(src[2][1], [('item',)]) or [] if q.end == 'return'}
                         if len(rr) == 1:
                             ent = (dk(src[2][0]), next(iter(rr)))
+                    elif src[0] == 'loopvar' and isinstance(src[2], int) and len(pushes.get(src[2], ())) == 1:
+                        # the entries collected by a loop: for (i, j) in indices.iter().enumerate() { v.push((i, j, 1)) }
+                        its = [x for l_, vs in entry.items() for x in vs if x.startswith('into_iter(enumerate(')]
+                        if len(set(its)) == 1 and entry.get(src[2]) and all(x.startswith(('with_capacity(', 'new()')) for x in entry[src[2]]):
+                            ent = (its[0][len('into_iter('):-1], next(iter(pushes[src[2]])))
                     sel[side] = (shape, ent)
                 else:
                     sel[side] = (dk(t)[:80], None)
